@@ -103,13 +103,14 @@ Theorem C14_annotation_total_dc_partial rfuel fuel addLine pool points mode s re
 Proof. exact (annotation_total_dc_header S next rfuel fuel addLine pool points mode s result all rounds txt s'). Qed.
 End Source.
 
-(* the stripped text evaluates to the value of the expression: full statement kept as a Prop (not proved);
-   proved for an exhaustively evaluated bounded family (> 1000 well-formed expressions); validated inside Coq on
-   every text Go produced in the run (Corr14.c14_eval_ok) *)
+(* the stripped text evaluates to the value of the expression: for EVERY well-formed fragment expression (integer literals,
+   rolls printed as their values, unary signs, parentheses, + - *, arbitrary blanks), printing it and evaluating the text
+   gives the value of the expression — a printer / evaluator round trip proved by induction (Proofs/DetailProofs.v
+   round_trip), no bound on size or depth.  On the texts Go produces the same evaluator runs inside Coq (Corr14.c14_eval_ok). *)
 Definition C14_strip_evaluates_statement : Prop := strip_evaluates_statement.
-Theorem C14_strip_evaluates_partial :
-  forall e, In e sample_exprs -> prec_ok e = true -> eval_arith (aprint e) = Some (avalue e).
-Proof. exact strip_evaluates_partial. Qed.
+Theorem C14_strip_evaluates :
+  forall e : aexp, prec_ok e = true -> eval_arith (aprint e) = Some (avalue e).
+Proof. exact strip_evaluates. Qed.
 
 (* requesting the text twice gives the same text; result, variables, generator state, source and spans are not
    touched (only the cache is); right after Parse the text is a function of (data, offset, spans, ret) alone *)
@@ -150,6 +151,6 @@ Print Assumptions C14_annotation_total_fate.
 Print Assumptions C14_annotation_total_coc.
 Print Assumptions C14_annotation_total_wod_partial.
 Print Assumptions C14_annotation_total_dc_partial.
-Print Assumptions C14_strip_evaluates_partial.
+Print Assumptions C14_strip_evaluates.
 Print Assumptions C14_detail_pure.
 Print Assumptions C14_detail_idempotent.
